@@ -109,6 +109,28 @@ def run_unit(A, unit, rep, tier):
                 rep.ok("C16.c")
             else:
                 rep.fail("C16.c", norm_key("C16.c", f.qualname), f"{f.qualname} {bad} (`{show(rv)[:80]}`): mutating the result changes the collection behind the library's back", [f.loc], g.label)
+    # (e) an operation that stores (a copy of) an argument hands back the stored node, not the caller's own object
+    for m in A.mutators(cls):
+        f = eps[m]
+        b, g = A.graph(cls, m, "root", "none")
+        stored = set()
+        for n in live(g):
+            if n.kind == "data_mut" and n["op"] in ("setitem", "append", "insert", "setdefault") and n["value"] is not None:
+                for x in n["value"].walk():
+                    if x.kind == "call" and isinstance(x.args[0], str) and x.args[0].endswith("._from_base"):
+                        for a_ in list(x.args[2]) + [v_ for _, v_ in x.args[3]]:
+                            if isinstance(a_, Val) and a_.kind == "param":
+                                stored.add(a_.args[0])
+        for r in [n for n in live(g) if n.kind == "ret" and len(n.stack) == 1]:
+            v = r["value"]
+            alts = v.args if v.kind == "phi" else (v,)
+            bad = [a_ for a_ in alts if a_.kind == "param" and a_.args[0] in stored]
+            if bad:
+                rep.fail("C16.e", norm_key("C16.e", f.qualname, r.stmt),
+                         f"{f.qualname}: `{r.stmt}` returns the caller's own object `{bad[0].args[0]}` although a converted copy of it was stored in the collection: mutating the result changes neither the collection nor the backend",
+                         [r.where() + ": " + r.stmt], g.label)
+            else:
+                rep.ok("C16.e")
     # (d) removal through the built-in operation
     for m in ("pop", "popitem", "__delitem__"):
         if m in eps and eps[m].module.name != "_collections_abc":
